@@ -28,7 +28,7 @@ from ..ref import UNSPEC, cli
 
 LEVEL = "exploration"
 PY = "/venv/bin/python"
-SCRATCH = "/tmp/c20"
+SCRATCH = f"/tmp/c20/run-{os.getpid()}"  # cwd and HOME of the subprocesses; removed when the run ends
 ERR_KEEP = 1500
 _ADDR = re.compile(r"0x[0-9a-fA-F]+")
 
@@ -667,6 +667,16 @@ def start_subprocess_helper(items, conc):
         os._exit(status)
 
 
+def drop_scratch():
+    import shutil
+
+    shutil.rmtree(SCRATCH, ignore_errors=True)
+    try:
+        os.rmdir(os.path.dirname(SCRATCH))
+    except OSError:
+        pass
+
+
 def collect_subprocess_helper(pid, path):
     _, st = os.waitpid(pid, 0)
     if st != 0 or not os.path.exists(path):
@@ -734,6 +744,8 @@ def run(ctx):
         except OSError:
             pass
         raise
+    finally:
+        drop_scratch()
     confirm(ctx)
 
 
@@ -872,6 +884,7 @@ def replay(w):
             part.violation("history-dependent", "replay", {}, "first call and later call differ")
     else:
         raise runner.HarnessError(f"unknown witness check {chk!r}")
+    drop_scratch()
     for v in part.violations:
         print("  " + v["kind"] + ": " + v["detail"][:1200])
     print("REPRODUCED" if part.violations else "not reproduced")
